@@ -121,8 +121,20 @@ def orPanicO {α : Type} (o : Option α) (k : α → Outcome) : Outcome :=
 @[rs_eval] theorem orPanicO_some {α} (a : α) (k : α → Outcome) : orPanicO (some a) k = k a := rfl
 @[rs_eval] theorem orPanicO_none {α} (k : α → Outcome) : orPanicO none k = .panic := rfl
 
+-- [shm] begin: generate the equation lemmas of `callDeclRef` HERE (a common ancestor) WITHOUT adding them to `rs_eval`
+-- (they unfold a call by reference inside continuations, which is expensive): a proof that needs them says
+-- `simp [callDeclRef]`; two groups that did so independently could otherwise not be imported together
+open Lean Meta Elab Command in
+elab "rs_realize_eqns_core " ids:ident+ : command => do
+  for id in ids do
+    let declName ← liftCoreM <| realizeGlobalConstNoOverloadWithInfo id
+    let _ ← liftTermElabM <| getEqnsFor? declName
+rs_realize_eqns_core callDeclRef
+-- [shm] end
 -- [shm] begin: the array comparison added to `binOp` (`Rs/Interp.lean`, block `[shm]`)
-rs_register_eqns intListEq
+rs_register_eqns intListEq tupleFieldName
+rs_register_eqns letValue
+@[rs_eval] theorem Ext.none_letPtr (t v) : Ext.none.letPtr t v = Option.none := rfl
 -- [shm] end
 -- [poller] begin: trait-impl method resolution (`Rs/Interp.lean`, block [poller])
 rs_register_eqns SelfKind.hasRecv traitImplCands traitImplDecl
